@@ -190,4 +190,165 @@ theorem SoundE.inst {x x' ty ty'} (ih : SoundE x x') : SoundE (.inst x ty) (.ins
   simp only [evalE]
   exact RRel.bind (ih N call ρ k env σ σ' hc hs) fun _ _ _ h => RRel.ok h
 
+/-! ### lists -/
+
+theorem SoundEs.nil : SoundEs [] [] := by
+  intro N call ρ k env σ σ' hc hs; simp only [evalEs]; exact RRel.ok hs
+
+theorem SoundEs.cons {x x' xs xs'} (hxs : R (.es xs) (.es xs')) (ihx : SoundE x x') (ihxs : SoundEs xs xs') :
+    SoundEs (x :: xs) (x' :: xs') := by
+  intro N call ρ k env σ σ' hc hs
+  cases hxs with
+  | esNil => simp only [evalEs]; exact ihx N call ρ k env σ σ' hc hs
+  | esCons _ _ =>
+    simp only [evalEs]
+    exact RRel.bind (ihx N call ρ k env σ σ' hc hs) fun _ _ _ h =>
+      RRel.bind (ihxs N call ρ k env _ _ hc h) fun _ _ _ h => RRel.ok h
+
+theorem SoundTs.nil : SoundTs [] [] := by
+  intro N call ρ k env σ σ' hc hs; simp only [evalTargets]; exact RRel.ok hs
+
+theorem SoundTs.cons {x x' xs xs'} (ihx : SoundT x x') (ihxs : SoundTs xs xs') :
+    SoundTs (x :: xs) (x' :: xs') := by
+  intro N call ρ k env σ σ' hc hs
+  simp only [evalTargets]
+  exact RRel.bind (ihx N call ρ k env σ σ' hc hs) fun _ _ _ h =>
+    RRel.bind (ihxs N call ρ k env _ _ hc h) fun _ _ _ h => RRel.ok h
+
+theorem SoundElifs.nil : SoundElifs [] [] := by
+  intro N call ρ k env σ σ' hc hs; simp only [evalElifs]; exact RRel.ok hs
+
+theorem SoundElifs.cons {c c' t t' xs xs'} (ihc : SoundE c c') (iht : SoundE t t') (ihxs : SoundElifs xs xs') :
+    SoundElifs ((c, t) :: xs) ((c', t') :: xs') := by
+  intro N call ρ k env σ σ' hc hs
+  simp only [evalElifs]
+  refine RRel.bind (ihc N call ρ k env σ σ' hc hs) fun _ _ _ h => ?_
+  split
+  · exact RRel.bind (iht N call ρ k env _ _ hc h) fun _ _ _ h => RRel.ok h
+  · exact ihxs N call ρ k env _ _ hc h
+
+theorem SoundEntries.nil : SoundEntries [] [] := by
+  intro N call ρ k env t i σ σ' hc hs; simp only [evalEntries]; exact RRel.ok hs
+
+theorem SoundEntries.pos {v v' xs xs'} (hxs : R (.entries xs) (.entries xs')) (ihv : SoundE v v')
+    (ihxs : SoundEntries xs xs') : SoundEntries (.pos v :: xs) (.pos v' :: xs') := by
+  intro N call ρ k env t i σ σ' hc hs
+  cases hxs with
+  | entriesNil =>
+    simp only [evalEntries]
+    exact RRel.bind (ihv N call ρ k env σ σ' hc hs) fun _ _ _ h => RRel.ok (h.setMany _ _ _)
+  | _ =>
+    simp only [evalEntries]
+    exact RRel.bind (ihv N call ρ k env σ σ' hc hs) fun _ _ _ h =>
+      ihxs N call ρ k env _ _ _ _ hc (h.rawSet _ _ _)
+
+theorem SoundEntries.named {key v v' xs xs'} (ihv : SoundE v v') (ihxs : SoundEntries xs xs') :
+    SoundEntries (.named key v :: xs) (.named key v' :: xs') := by
+  intro N call ρ k env t i σ σ' hc hs
+  simp only [evalEntries]
+  exact RRel.bind (ihv N call ρ k env σ σ' hc hs) fun _ _ _ h =>
+    ihxs N call ρ k env _ _ _ _ hc (h.rawSet _ _ _)
+
+theorem SoundEntries.keyed {ke ke' v v' xs xs'} (ihk : SoundE ke ke') (ihv : SoundE v v')
+    (ihxs : SoundEntries xs xs') : SoundEntries (.keyed ke v :: xs) (.keyed ke' v' :: xs') := by
+  intro N call ρ k env t i σ σ' hc hs
+  simp only [evalEntries]
+  refine RRel.bind (ihk N call ρ k env σ σ' hc hs) fun _ _ _ h =>
+    RRel.bind (ihv N call ρ k env _ _ hc h) fun _ _ _ h => ?_
+  split
+  · exact RRel.errS h
+  · split
+    · exact RRel.errS h
+    · exact ihxs N call ρ k env _ _ _ _ hc (h.rawSet _ _ _)
+  · exact ihxs N call ρ k env _ _ _ _ hc (h.rawSet _ _ _)
+
+theorem SoundSegs.nil : SoundSegs [] [] := by
+  intro N call ρ k env acc σ σ' hc hs; simp only [evalSegs]; exact RRel.ok hs
+
+theorem SoundSegs.s {b xs xs'} (ihxs : SoundSegs xs xs') : SoundSegs (.s b :: xs) (.s b :: xs') := by
+  intro N call ρ k env acc σ σ' hc hs
+  simp only [evalSegs]
+  exact ihxs N call ρ k env _ _ _ hc hs
+
+theorem SoundSegs.v {x x' xs xs'} (ihx : SoundE x x') (ihxs : SoundSegs xs xs') :
+    SoundSegs (.v x :: xs) (.v x' :: xs') := by
+  intro N call ρ k env acc σ σ' hc hs
+  simp only [evalSegs]
+  exact RRel.bind (ihx N call ρ k env σ σ' hc hs) fun _ _ _ h =>
+    RRel.bind (tostringVal_param hc _ _ h) fun _ _ _ h => ihxs N call ρ k env _ _ _ hc h
+
+/-! ### targets -/
+
+theorem SoundT.var {a} : SoundT (.var a) (.var a) := by
+  intro N call ρ k env σ σ' hc hs; simp only [evalTarget]; exact RRel.ok hs
+
+theorem SoundT.field {x x' n} (ih : SoundE x x') : SoundT (.field x n) (.field x' n) := by
+  intro N call ρ k env σ σ' hc hs
+  simp only [evalTarget]
+  exact RRel.bind (ih N call ρ k env σ σ' hc hs) fun _ _ _ h => RRel.ok h
+
+theorem SoundT.index {x x' i i'} (ih : SoundE x x') (ihi : SoundE i i') : SoundT (.index x i) (.index x' i') := by
+  intro N call ρ k env σ σ' hc hs
+  simp only [evalTarget]
+  exact RRel.bind (ih N call ρ k env σ σ' hc hs) fun _ _ _ h =>
+    RRel.bind (ihi N call ρ k env _ _ hc h) fun _ _ _ h => RRel.ok h
+
+theorem SoundT.nonLv {x x' : Expr} (h : x.isLv = false) (h' : x'.isLv = false) : SoundT x x' := by
+  intro N call ρ k env σ σ' hc hs
+  rw [evalTarget_nonLv _ _ _ _ _ h, evalTarget_nonLv _ _ _ _ _ h']
+  exact RRel.errS hs
+
+/-! ### blocks -/
+
+theorem SoundSs.nil : SoundSs [] [] := by
+  intro N call ρ k env σ σ' hc hs; simp only [execSs]; exact RRel.ok hs
+
+theorem SoundSs.cons {x x' xs xs'} (ihx : SoundS x x') (ihxs : SoundSs xs xs') :
+    SoundSs (x :: xs) (x' :: xs') := by
+  intro N call ρ k env σ σ' hc hs
+  simp only [execSs]
+  refine RRel.bind (ihx N call ρ k env σ σ' hc hs) fun c _ _ h => ?_
+  cases c
+  · exact ihxs N call ρ k _ _ _ hc h
+  all_goals exact RRel.ok h
+
+theorem SoundBranches.nil : SoundBranches [] [] := by
+  intro N call ρ k env σ σ' hc hs; simp only [execBranches]; exact RRel.ok hs
+
+theorem SoundBranches.cons {c c' b b' xs xs'} (ihc : SoundE c c') (ihb : SoundB b b')
+    (ihxs : SoundBranches xs xs') : SoundBranches ((c, b) :: xs) ((c', b') :: xs') := by
+  intro N call ρ k env σ σ' hc hs
+  simp only [execBranches]
+  refine RRel.bind (ihc N call ρ k env σ σ' hc hs) fun _ _ _ h => ?_
+  split
+  · refine RRel.bind (ihb N call ρ k env _ _ hc h) fun c _ _ h => ?_
+    cases c <;> exact RRel.ok h
+  · exact ihxs N call ρ k env _ _ hc h
+
+theorem SoundL.ret {es es'} (ih : SoundEs es es') : SoundL (.ret es) (.ret es') := by
+  intro N call ρ k env σ σ' hc hs
+  simp only [execLast]
+  exact RRel.bind (ih N call ρ k env σ σ' hc hs) fun _ _ _ h => RRel.ok h
+
+theorem SoundL.brk : SoundL .brk .brk := by
+  intro N call ρ k env σ σ' hc hs; simp only [execLast]; exact RRel.ok hs
+
+theorem SoundL.cont : SoundL .cont .cont := by
+  intro N call ρ k env σ σ' hc hs; simp only [execLast]; exact RRel.ok hs
+
+theorem SoundB.none {ss ss'} (ih : SoundSs ss ss') : SoundB (.mk ss none) (.mk ss' none) := by
+  intro N call ρ k env σ σ' hc hs
+  simp only [execB]
+  refine RRel.bind (ih N call ρ k env σ σ' hc hs) fun c _ _ h => ?_
+  cases c <;> exact RRel.ok h
+
+theorem SoundB.some {ss ss' l l'} (ih : SoundSs ss ss') (ihl : SoundL l l') :
+    SoundB (.mk ss (some l)) (.mk ss' (some l')) := by
+  intro N call ρ k env σ σ' hc hs
+  simp only [execB]
+  refine RRel.bind (ih N call ρ k env σ σ' hc hs) fun c _ _ h => ?_
+  cases c
+  · exact ihl N call ρ k _ _ _ hc h
+  all_goals exact RRel.ok h
+
 end DarkluaModel.Sem
